@@ -145,6 +145,19 @@ def first_use_order(dm, f, fields):
     return order
 
 
+def _c_type_of(words):
+    """The C type denoted by a list of type-specifier words, as a sorted tuple: implicit `int`
+    made explicit, redundant `signed` dropped, order of specifiers irrelevant (C11 6.7.2)."""
+    ws = list(words)
+    base = [w for w in ws if w not in ("short", "long", "unsigned", "signed", "complex", "_Complex")]
+    if not base and any(w in ("short", "long", "unsigned", "signed") for w in ws):
+        ws.append("int")
+    if "char" not in ws:
+        ws = [w for w in ws if w != "signed"]
+    ws = ["complex" if w == "_Complex" else w for w in ws]
+    return tuple(sorted(ws))
+
+
 def run(repo, run, tier):
     dm = repo.module("declast")
     tm = repo.module("todict")
@@ -177,6 +190,58 @@ def run(repo, run, tier):
     run.check(R1, "declast.Declaration.gen_attrs", "sorted(attrs)" in s and 'attr[0] == "_"' in s and
               '"{}({})".format(attr, value)' in s,
               "gen_attrs must render every user attribute as +name or +name(value)", dm.loc(ga))
+
+    # nested declarations (template arguments, parameters) are rendered by a rendering call on the nested
+    # node - reading one field of it (e.g. its typemap's internal name) drops qualifiers, pointers and spelling
+    nn = 0
+    for q, fn in sorted(dm.functions().items()):
+        if not q.startswith(("Declaration.", "Declarator.")):
+            continue
+        for lp in ast.walk(fn):
+            if not (isinstance(lp, ast.For) and isinstance(lp.target, ast.Name)):
+                continue
+            it = pyflow.dotted(lp.iter) or ""
+            if it not in ("self.template_arguments", "self.params"):
+                continue
+            v = lp.target.id
+            for call in ast.walk(lp):
+                if isinstance(call, ast.Call) and isinstance(call.func, ast.Attribute) and call.func.attr == "append" \
+                        and call.args and any(isinstance(x, ast.Name) and x.id == v for x in ast.walk(call.args[0])):
+                    a = call.args[0]
+                    nn += 1
+                    rendered = isinstance(a, ast.Call) and (
+                        (isinstance(a.func, ast.Name) and a.func.id == "str" and pyflow.is_name(a.args[0], v)) or
+                        (isinstance(a.func, ast.Attribute) and pyflow.is_name(a.func.value, v)))
+                    run.check(R1, "declast.%s:nested %s" % (q, it.split(".")[1]), rendered or isinstance(a, ast.Name),
+                              "a nested declaration of %s is emitted as `%s` instead of through a rendering call "
+                              "(str(x) / x.gen_*()): the nested type loses its spelling and qualifiers"
+                              % (it, dm.seg(a)), dm.loc(call), sample=dict(method=q, emitted=dm.seg(a)))
+    run.floor(R1, "nested-declaration emission sites", nn, 2)
+    # a parsed parameter is dropped ("(void)" means no parameters) only when it has no declarator at all:
+    # the declarator holds pointer operators, name, array and function parts
+    pd = dm.func("Parser.declaration")
+    drops = [n for n in ast.walk(pd) if isinstance(n, ast.Assign) and (pyflow.dotted(n.targets[0]) or "").endswith(".params")
+             and isinstance(n.value, ast.List) and not n.value.elts]
+    run.check(R1, "declast.Parser.declaration:(void)", len(drops) == 1,
+              "expected exactly one place that turns `(void)` into an empty parameter list", dm.loc(pd))
+    for d in drops:
+        fields = set()
+        whole = []
+        for t, pol in pyflow.dominating_tests(d, stop=pd):
+            whole.append(dm.seg(t))
+            for x in ast.walk(t):
+                if isinstance(x, ast.Compare) and isinstance(x.left, ast.Attribute):
+                    if x.left.attr == "declarator" and isinstance(x.ops[0], ast.Is) and pol:
+                        fields.add("declarator is None")
+                    if x.left.attr == "specifier" and isinstance(x.ops[0], ast.Eq) and pol and \
+                            isinstance(x.comparators[0], ast.List) and [pyflow.const_str(e) for e in x.comparators[0].elts] == ["void"]:
+                        fields.add("specifier == [void]")
+                if isinstance(x, ast.Compare) and isinstance(x.left, ast.Call) and pyflow.is_name(x.left.func, "len") and pol:
+                    fields.add("single")
+        run.check(R1, "declast.Parser.declaration:(void):lossless", fields >= {"declarator is None", "specifier == [void]", "single"},
+                  "a parameter is discarded under %s: it must be the only parameter, spelled exactly `void`, and have no "
+                  "declarator (otherwise `void *` / `void (*)()` parameters vanish)" % whole, dm.loc(d),
+                  sample=dict(tests=whole))
 
     # ---- R2 order
     common = ["const", "template_arguments", "declarator", "params", "func_const", "array"]
@@ -289,6 +354,11 @@ def run(repo, run, tier):
                   "canonical name %r is not a registered typemap: `%s x` is rejected as unknown type"
                   % (v, k.replace("_", " ")), dm.loc(dm.toplevel_assign("canonical_typemap")), sample=dict(key=k, value=str(v)))
         words = k.split("_")
+        run.check(R5, "declast.canonical_typemap[%s]:same-type" % k, _c_type_of(words) == _c_type_of(str(v).split("_")),
+                  "`%s` and `%s` are different C types (%s vs %s): declarations written with the first spelling "
+                  "are wrapped with the wrong type" % (" ".join(words), str(v).replace("_", " "),
+                                                      _c_type_of(words), _c_type_of(str(v).split("_"))),
+                  dm.loc(dm.toplevel_assign("canonical_typemap")), sample=dict(key=k, value=str(v)))
         run.check(R5, "declast.canonical_typemap[%s]:words" % k, all(w in spec for w in words),
                   "key %r is not a join of type-specifier words %s" % (k, sorted(spec)),
                   dm.loc(dm.toplevel_assign("canonical_typemap")))
